@@ -613,7 +613,7 @@ fn emit_fn(out: &mut Value, req: &Value, sig: &Signature, block: &Block, impl_hd
             }
         }
     }
-    if sig.asyncness.is_some() && has_await(&b) {
+    if sig.asyncness.is_some() && has_await(&b) && req["await_yields"].as_str().is_none() {
         out["error"] = json!("UNSUPPORTED async fn with .await cannot be extracted (N10); slice an await-free part instead");
         return;
     }
